@@ -393,11 +393,71 @@ fn decode_all(cfg: &gs::Config, stream: &[u8], script: Script) -> (Vec<String>, 
     }
 }
 
+/// configuration of the byte-level sub-check / fuzz target: L in {100, 1000}, 3 publish messages, 300 control bytes
+pub fn byte_level_cfg(limit: u8) -> Result<(usize, gs::Config), String> {
+    let l = LIMITS[limit as usize % 2];
+    gs::ConfigBuilder::default().validation_mode(ValidationMode::Anonymous).max_transmit_size(l).max_publish_messages(3).max_control_message_size(300).build().map(|c| (l, c)).map_err(|e| e.to_string())
+}
+
+/// Chunking-independence oracle (shared with the fuzz target `gossipsub_rpc`): the stream is decoded
+/// one byte per read (baseline) and with `script`; Ok((shapes yielded, ended with an error)).
+pub fn chunking_oracle(cfg: &gs::Config, l: usize, stream: &[u8], script: &Script) -> Result<(Vec<String>, bool), (String, serde_json::Value)> {
+    // baseline: one byte per read, so the decoder never sees more than the frame it is working on
+    let (base, base_err) = decode_all(cfg, stream, Script::bytewise());
+    let (got, got_err) = decode_all(cfg, stream, script.clone());
+    if base != got || base_err != got_err {
+        return Err((
+            "C31:decoding-depends-on-chunking".into(),
+            json!({"limit": l, "stream_len": stream.len(), "bytewise": {"yielded": base.len(), "ended_with_error": base_err}, "scripted": {"yielded": got.len(), "ended_with_error": got_err},
+                   "first_difference": base.iter().zip(got.iter()).position(|(a, b)| a != b)}),
+        ));
+    }
+    Ok((base, base_err))
+}
+
+/// Size-limit oracle on an arbitrary byte stream (fuzz target only). The stream is walked with the
+/// independent uvarint reader: k = number of leading complete frames whose declared length is
+/// <= L. The decoder (any chunking) must not yield more than k RPCs; if it yields fewer than k
+/// it must have ended with an error (no within-limit frame is silently dropped); if the walk stops
+/// at a prefix declaring more than L bytes and all k frames were yielded, the stream must end
+/// with an error (with or without the oversized payload present).
+pub fn limit_oracle(l: usize, stream: &[u8], yielded: usize, ended_with_error: bool) -> Result<&'static str, (String, serde_json::Value)> {
+    let mut off = 0usize;
+    let mut k = 0usize;
+    let stop = loop {
+        match vcore::refcodec::read_uvarint(&stream[off..]) {
+            None => break if off == stream.len() { "clean-end" } else { "bad-or-incomplete-prefix" },
+            Some((len, used)) => {
+                if len > l as u64 {
+                    break "oversized-prefix";
+                }
+                let end = off + used + len as usize;
+                if end > stream.len() {
+                    break "incomplete-frame";
+                }
+                off = end;
+                k += 1;
+            }
+        }
+    };
+    let capped = yielded > 64; // decode_all stops after 65 items
+    let d = |what: &str| json!({"what": what, "limit": l, "stream_len": stream.len(), "within_limit_complete_frames": k, "walk_stopped_at": stop, "offset": off, "yielded": yielded, "ended_with_error": ended_with_error});
+    if yielded > k {
+        return Err(("C31:more-rpcs-yielded-than-within-limit-frames".into(), d("an RPC was decoded from bytes that are not a complete frame of at most max_transmit_size bytes")));
+    }
+    if !capped && yielded < k && !ended_with_error {
+        return Err(("C31:within-limit-frame-silently-dropped".into(), d("fewer RPCs than complete within-limit frames and no error")));
+    }
+    if !capped && stop == "oversized-prefix" && yielded == k && !ended_with_error {
+        return Err(("C31:oversized-rpc-silently-dropped".into(), d("a frame declaring more than max_transmit_size bytes did not end the stream with an error")));
+    }
+    Ok(stop)
+}
+
 fn fuzz_check(case: &FuzzCase) -> Outcome {
-    let l = LIMITS[case.limit as usize % 2];
-    let cfg = match gs::ConfigBuilder::default().validation_mode(ValidationMode::Anonymous).max_transmit_size(l).max_publish_messages(3).max_control_message_size(300).build() {
+    let (l, cfg) = match byte_level_cfg(case.limit) {
         Ok(c) => c,
-        Err(e) => return Outcome::fail("C31:config-rejected", e.to_string()),
+        Err(e) => return Outcome::fail("C31:config-rejected", e),
     };
     let mut stream = vec![];
     for (i, s) in case.rpcs.iter().enumerate() {
@@ -405,16 +465,10 @@ fn fuzz_check(case: &FuzzCase) -> Outcome {
     }
     let mut stream = vcore::gen::apply_mutations(&stream, &case.muts);
     stream.extend_from_slice(&case.tail);
-    // baseline: one byte per read, so the decoder never sees more than the frame it is working on
-    let (base, base_err) = decode_all(&cfg, &stream, Script::bytewise());
-    let (got, got_err) = decode_all(&cfg, &stream, case.read.clone());
-    if base != got || base_err != got_err {
-        return Outcome::fail(
-            "C31:decoding-depends-on-chunking",
-            json!({"limit": l, "stream_len": stream.len(), "bytewise": {"yielded": base.len(), "ended_with_error": base_err}, "scripted": {"yielded": got.len(), "ended_with_error": got_err},
-                   "first_difference": base.iter().zip(got.iter()).position(|(a, b)| a != b)}),
-        );
-    }
+    let (base, base_err) = match chunking_oracle(&cfg, l, &stream, &case.read) {
+        Ok(x) => x,
+        Err((sig, d)) => return Outcome::fail(sig, d),
+    };
     let mut labels = vec![];
     if !case.muts.is_empty() || !case.tail.is_empty() {
         labels.push("mutated");
@@ -426,6 +480,16 @@ fn fuzz_check(case: &FuzzCase) -> Outcome {
         labels.push("yielded>=2");
     }
     Outcome::pass_l(!base.is_empty() && (base_err || base.len() >= 2), labels)
+}
+
+/// seed material for the fuzz corpus: the frames of a spec list at limit index `limit`
+pub fn seed_stream(limit: u8, specs: &[RpcSpec]) -> Vec<u8> {
+    let l = LIMITS[limit as usize % 2];
+    let mut stream = vec![];
+    for (i, s) in specs.iter().enumerate() {
+        stream.extend(wire::frame(&build(s, i, l, 3, 300)));
+    }
+    stream
 }
 
 pub fn run(ctx: &mut Ctx) {
@@ -445,4 +509,5 @@ pub fn run(ctx: &mut Ctx) {
         &|| fuzz_strategy().boxed(),
         &fuzz_check,
     );
+    ctx.fuzz(&crate::fuzzapi::GOSSIPSUB_RPC, 30_000, 600_000, crate::fuzzapi::GOSSIPSUB_RPC_RUNS_PER_JOB, crate::fuzzapi::FUZZ_JOBS);
 }
